@@ -34,6 +34,7 @@ THEOREMS = [
     "KrroodVerif.Eql.deMorganTable_ok",
     "KrroodVerif.Eql.complementTable_rejected",
     "KrroodVerif.Eql.orTables_rejected",
+    "KrroodVerif.Eql.satE_invComparatorWith_noFlat_partial",
 ]
 TRANSLATED = ["KrroodVerif.Eql.Translated.C02_rewrites_translated_eq_model",
               "KrroodVerif.Eql.Translated.C02_rewrites_translated_ok"]
